@@ -86,6 +86,11 @@ def record_case(ptn, c):
     for opt in c['paths']:
         try:
             tk_in, vi_in = (tk.tolist(), vi.tolist()) if c.get('lists') else (tk.copy(), vi.copy())
+            if c['seed'] % 3 == 1:
+                # a history: the same Hamiltonian was requested before and that result modified in place
+                first = ctor(tk.copy(), vi.copy(), optimize=opt)
+                first.A[0] *= 3.0
+                first.zero_qnumbers() if c['seed'] % 2 else first.orthonormalize(mode='right')
             mpo = ctor(tk_in, vi_in, optimize=opt)
             if not c.get('lists'):
                 tr.append(dict(ev='flag', what='constructor modified its coefficient arrays', ok=bool(np.array_equal(tk_in, tk) and np.array_equal(vi_in, vi)
